@@ -742,7 +742,13 @@ func modeDecode(tier string, args []string) {
 				}
 				// 16-bit count/length fields forced to extremes: every aligned pair in the body
 				for off := 7; off+1 < len(pkt) && off < 7+40; off++ {
-					for _, v := range []uint16{0, 1, 0xffff, 0x8000, uint16(len(pkt))} {
+					vals := []uint16{0, 1, 0xffff, 0x8000, uint16(len(pkt))}
+					// counts whose product with an element size (13: qid, 2: shortest name) wraps just past a multiple of 2^16
+					for k := 1; k <= 12; k += 1 + rng.Intn(3) {
+						vals = append(vals, uint16((65536*k)/13+1), uint16((65536*k)/13+2))
+					}
+					vals = append(vals, 32768, 32769, 21846, 21847)
+					for _, v := range vals {
 						b := append([]byte{}, pkt...)
 						b[off], b[off+1] = byte(v), byte(v>>8)
 						mk(b, du)
